@@ -19,6 +19,8 @@ import (
 // (D3b) and does not come back on a dense cycle.  Every load must return within the time limit and the
 // most specific subject's rule must decide.
 
+const rbacDomText = "[request_definition]\nr = sub, dom, obj, act\n[policy_definition]\np = sub, dom, obj, act\n[role_definition]\ng = _, _, _\n[policy_effect]\ne = some(where (p.eft == allow))\n[matchers]\nm = g(r.sub, p.sub, r.dom) && r.dom == p.dom && r.obj == p.obj && r.act == p.act\n"
+
 func subjectDagChild() int {
 	_ = syscall.Setrlimit(syscall.RLIMIT_AS, &syscall.Rlimit{Cur: 6 << 30, Max: 6 << 30})
 	type tc struct {
@@ -75,6 +77,76 @@ func subjectDagChild() int {
 		}
 		fmt.Printf("done %s in %v\n", t.name, time.Since(start).Round(time.Millisecond))
 	}
+	// plain RBAC over dense role graphs, requests whose answer needs every path ruled out: g() must come back
+	// (the role manager's search is level by level, each name once per level; a search that follows every path
+	// needs 11^10 steps on a clique of 12)
+	for _, dom := range []bool{false, true} {
+		rule := func(f ...string) []string {
+			if dom && len(f) == 2 {
+				return append(f, "d1")
+			}
+			if dom {
+				return append([]string{f[0], "d1"}, f[1:]...)
+			}
+			return f
+		}
+		text := rbacText
+		if dom {
+			text = rbacDomText
+		}
+		a := mem.New()
+		for i := 0; i < 12; i++ {
+			for j := 0; j < 12; j++ {
+				if i != j {
+					a.Lines = append(a.Lines, mem.Line{PType: "g", Rule: rule(fmt.Sprintf("team%d", i), fmt.Sprintf("team%d", j))})
+				}
+			}
+		}
+		// ten complete layers of five
+		for l := 1; l < 10; l++ {
+			for i := 0; i < 5; i++ {
+				for j := 0; j < 5; j++ {
+					a.Lines = append(a.Lines, mem.Line{PType: "g", Rule: rule(fmt.Sprintf("k%d_%d", l, i), fmt.Sprintf("k%d_%d", l-1, j))})
+				}
+			}
+		}
+		a.Lines = append(a.Lines, mem.Line{PType: "g", Rule: rule("alice", "team0")}, mem.Line{PType: "g", Rule: rule("bob", "k9_0")},
+			mem.Line{PType: "p", Rule: rule("team7", "data2", "write")}, mem.Line{PType: "p", Rule: rule("auditor", "data1", "read")},
+			mem.Line{PType: "p", Rule: rule("k0_3", "data3", "read")})
+		start := time.Now()
+		e, err := casbin.NewEnforcer(mustModel(text), a)
+		if err != nil {
+			fmt.Printf("FAIL dense graph: load error %v\n", err)
+			return 1
+		}
+		req := func(f ...string) []interface{} {
+			f = rule(f...)
+			out := make([]interface{}, len(f))
+			for i, x := range f {
+				out[i] = x
+			}
+			return out
+		}
+		for _, t := range []struct {
+			r    []interface{}
+			want bool
+		}{{req("alice", "data1", "read"), false}, {req("alice", "data2", "write"), true}, {req("bob", "data1", "read"), false}, {req("bob", "data3", "read"), true}, {req("team3", "data1", "read"), false}} {
+			ok, err := e.Enforce(t.r...)
+			if err != nil || ok != t.want {
+				fmt.Printf("FAIL dense role graph (domains=%v): Enforce%v = %v, %v; want %v\n", dom, t.r, ok, err, t.want)
+				return 1
+			}
+		}
+		var domArg []string
+		if dom {
+			domArg = []string{"d1"}
+		}
+		if _, err := e.GetImplicitRolesForUser("alice", domArg...); err != nil {
+			fmt.Printf("FAIL dense role graph: GetImplicitRolesForUser: %v\n", err)
+			return 1
+		}
+		fmt.Printf("done dense role graphs (domains=%v) in %v\n", dom, time.Since(start).Round(time.Millisecond))
+	}
 	fmt.Println("OK")
 	return 0
 }
@@ -91,6 +163,6 @@ func subjectDags(c *Ctx) {
 		if len(tail) > 800 {
 			tail = tail[len(tail)-800:]
 		}
-		c.Direct("a subject-priority load over a large role hierarchy hangs, runs out of memory or decides wrongly", fmt.Sprintf("child exit: %v (25 s limit, 6 GiB address space)\n%s", err, tail))
+		c.Direct("a load or a decision over a large role hierarchy (subject-priority order, dense role graphs) hangs, runs out of memory or decides wrongly", fmt.Sprintf("child exit: %v (25 s limit, 6 GiB address space)\n%s", err, tail))
 	}
 }
